@@ -105,6 +105,26 @@ func corpus(tier string) ([]History, []string) {
 		Op{K: "dies", T: tidOf(0, 1)},
 		Op{K: "dies", T: tidOf(0, 2)},
 		Op{K: "destroy", E: 0})
+	// seeded change C06-1: an executor / agent failure leaves tasks unlocked but still parented; a
+	// forced keep-tasks destroy must clear the parent (they stay in the roster, unowned)
+	add("xfail-destroy-force-keep",
+		cr(0, []int{0}, plain(0, true), plain(1, false), hookTask(1, false, 2, false)),
+		Op{K: "xfail", T: tidOf(0, 1)},
+		Op{K: "destroy", E: 0, Force: true, Keep: true},
+		Op{K: "cleanup"})
+	add("xfail-destroy-plain",
+		cr(0, []int{2}, plain(2, true), plain(3, false), plain(3, false)),
+		Op{K: "control", E: 0, Ev: 2},
+		Op{K: "xfail", T: tidOf(0, 2)},
+		Op{K: "destroy", E: 0, Allow: true})
+	add("xfail-agent-two-envs",
+		cr(0, []int{0}, plain(0, true), plain(4, false)),
+		cr(1, []int{2}, plain(2, true), plain(4, false), hookTask(4, false, -5, false)),
+		Op{K: "xfail", T: tidOf(0, 1), Agent: true},
+		Op{K: "destroy", E: 0, Force: true, Keep: true},
+		Op{K: "control", E: 1, Ev: 2},
+		Op{K: "destroy", E: 1, Force: true, Keep: true},
+		Op{K: "cleanup"})
 	add("create-undeployable",
 		Op{K: "create", E: 0, Spec: &Spec{Hosts: []int{0}, Fail: 4, Roles: []Role{plain(0, true)}}},
 		cr(1, []int{0}, plain(0, true)))
@@ -356,7 +376,7 @@ func randomHistory(r *gen.Rand, allowSlow bool) (History, string) {
 			h.Ops = append(h.Ops, Op{K: "destroy", E: r.Intn(len(envs) + 1), Force: r.Chance(1, 2)})
 		case x < 90:
 			h.Ops = append(h.Ops, Op{K: "cleanup"})
-		case x < 96:
+		case x < 95:
 			kt := knownTasks()
 			var ids []int
 			for _, t := range kt {
@@ -369,6 +389,28 @@ func randomHistory(r *gen.Rand, allowSlow bool) (History, string) {
 			}
 			if len(ids) > 0 {
 				h.Ops = append(h.Ops, Op{K: "kill", Ids: ids})
+			}
+		case x < 98:
+			// the executor (1/4: the agent) of a non-critical task fails; the harness skips the
+			// injection when a critical task shares it
+			var cand []int
+			for e, ge := range envs {
+				if ge == nil || ge.pending || !ge.alive {
+					continue
+				}
+				for i, ro := range ge.spec.Roles {
+					if (ro.Kind == KPlain || ro.Kind == KHookTask) && !ro.Crit {
+						cand = append(cand, tidOf(e, i))
+					}
+				}
+			}
+			if len(cand) > 0 {
+				t := cand[r.Intn(len(cand))]
+				h.Ops = append(h.Ops, Op{K: "xfail", T: t, Agent: r.Chance(1, 4)})
+				if r.Chance(1, 2) && envs[t/64].alive {
+					envs[t/64].alive = false
+					h.Ops = append(h.Ops, Op{K: "destroy", E: t / 64, Force: true, Keep: true})
+				}
 			}
 		default:
 			// a non-critical task dies
